@@ -165,6 +165,7 @@ def readPrivate (std custom : Array String) (data : Bytes) (d : DictL) : Outcome
   | none => .err "other"
   | some (pdSize, pdOffs) =>
     if pdOffs < 4 ∨ pdSize < 0 then .err "other"
+    else if pdOffs + pdSize > data.length then .err "other"   -- "Private DICT extends beyond end of file"
     else match rd data pdOffs.toNat pdSize.toNat with
       | none => .err "eof"
       | some blob =>
